@@ -294,6 +294,13 @@ class URLInfo(object):
 
         hostname = ipaddress.IPv6Address(hostname[1:-1]).compressed
 
+        # The zone identifier ("%eth0") is free text as far as the
+        # ipaddress module is concerned.
+        if any(char in hostname
+               for char in FORBIDDEN_HOSTNAME_CHARS - frozenset(':%')):
+            raise ValueError('Invalid IPv6 address: {}'
+                             .format(ascii(hostname)))
+
         return hostname
 
     @property
